@@ -227,6 +227,25 @@ theorem C09_ws_exec_wire (h : Handler) (s s' : ExecState) (f : FrameIn)
 example : (wsCall exH0 ⟨.nil, "T.Nope".toList, .absent⟩).2 = none
     ∧ ((exH0.handle true ⟨.nil, "T.Nope".toList, .absent⟩).resp).isSome = true := by decide
 
+/-- C09_batchWriter_refines: the real `batchWriter` — driven Write by Write, with `nextElem` before every
+    element and `finish` at the end — emits exactly the element-level reply the theorems above speak of:
+    the outputs of the elements that wrote something, in order, comma-separated inside one pair of
+    brackets, and nothing at all when no element wrote anything.  For every number of elements, every
+    chunking of every element's output (empty writes included). -/
+theorem C09_batchWriter_refines (elems : List (List String)) :
+    BatchWriter.run elems = BatchWriter.spec elems := by
+  have h := BatchWriter.run_from {} elems
+  simp only at h
+  unfold BatchWriter.run BatchWriter.spec BatchWriter.BW.finish
+  rw [h.1, h.2]
+  cases hs : BatchWriter.specFrom false elems <;> simp [hs]
+
+/-- Non-vacuity: a notification (no writes), an element written in two chunks with an empty write in
+    between, a notification, a one-chunk element. -/
+example : BatchWriter.run [[], ["{\"a\"", "", ":1}"], [""], ["{}"]] =
+    [.lbrack, .data "{\"a\"", .data ":1}", .comma, .data "{}", .rbrack] := by decide
+example : BatchWriter.run [[], [""], []] = [] := by decide
+
 /-- Non-vacuity: a concrete mixed batch (call, notification, invalid id, unknown method). -/
 def exM : Method := { tag := "T.Add", ptypes := ["int"], hasCtx := false, raw := false,
                       out := .valErr, isChan := false, behav := .ok }
